@@ -682,6 +682,8 @@ pub fn run_builder(pr: Proto, layer: Layer, ops: &[BOp], km: &KeyMat) -> Vec<Out
 pub enum POp {
     CheckClaim { key: String, value: Value, via: Via },
     ValidateClaim { key: String, kind: VKind },
+    /// validate_claim with the library's own placeholder claim for the key
+    ValidateClaimTyped { key: String, kind: VKind },
     /// validate_claim with a given value in the expected-claim entry (which must be ignored)
     ValidateClaimWith { key: String, kind: VKind, value: Value },
     /// generic layer only
@@ -732,6 +734,22 @@ macro_rules! run_parser_impl {
                 POp::ValidateClaim { key, kind } => {
                     p.validate_claim(AnyClaim { key: key.clone(), value: Value::Null }, validator_ref(*kind));
                 }
+                // the documented idiom: the library's own claim type as placeholder (X::default() for a
+                // registered claim, CustomClaim::try_from(key) for a custom one)
+                POp::ValidateClaimTyped { key, kind } => match key.as_str() {
+                    "iss" => { p.validate_claim(IssuerClaim::default(), validator_ref(*kind)); }
+                    "sub" => { p.validate_claim(SubjectClaim::default(), validator_ref(*kind)); }
+                    "aud" => { p.validate_claim(AudienceClaim::default(), validator_ref(*kind)); }
+                    "jti" => { p.validate_claim(TokenIdentifierClaim::default(), validator_ref(*kind)); }
+                    "iat" => { p.validate_claim(IssuedAtClaim::default(), validator_ref(*kind)); }
+                    k => {
+                        let ks: &'static str = Box::leak(k.to_string().into_boxed_str());
+                        match CustomClaim::<&str>::try_from(ks) {
+                            Ok(c) => { p.validate_claim(c, validator_ref(*kind)); }
+                            Err(_) => { p.validate_claim(AnyClaim { key: key.clone(), value: Value::Null }, validator_ref(*kind)); }
+                        }
+                    }
+                },
                 POp::ValidateClaimWith { key, kind, value } => {
                     p.validate_claim(AnyClaim { key: key.clone(), value: value.clone() }, validator_ref(*kind));
                 }
